@@ -16,6 +16,7 @@ func parserFamily(c *Ctx, kind string) []*family.Grammar {
 	}
 	var gs []*family.Grammar
 	gs = append(gs, family.Shapes()...)
+	gs = append(gs, family.EndLookahead()...)
 	basis := family.Dedup(family.Basis(size))
 	if !c.Quick() {
 		// all of size <= 3 plus a seeded sample of size 4
@@ -190,9 +191,23 @@ func init() {
 		return parserFamily(c, ""), &GramSpec{
 			Variants: []string{"d"},
 			Entries: func(gg *GenGrammar) []EntrySpec {
-				return []EntrySpec{{Name: "C05", Params: "n int", Body: "hl.C05(G, vd.New, strconv.Quote, n, NSW)"}}
+				return []EntrySpec{{Name: "C05", Params: "n int", Body: "hl.C05(G, vd.New, strconv.Quote, n, NSW)"},
+					{Name: "C05Unit", Params: "k int", Body: "hl.C05Unit(vd.ASTOf, vd.RuleName(), k)"}}
 			},
-			Jobs:              func(gg *GenGrammar) []*Job { return lenJobs("C05", N) },
+			Jobs: func(gg *GenGrammar) []*Job {
+				jobs := lenJobs("C05", N)
+				if gg.Idx == 0 {
+					// the AST builder is grammar independent: one package runs the unit harness
+					kmax := 4
+					if !c.Quick() {
+						kmax = 5
+					}
+					for k := 0; k <= kmax; k++ {
+						jobs = append(jobs, &Job{Entry: "C05Unit", Args: []int{k}, Need: []string{"done"}})
+					}
+				}
+				return jobs
+			},
 			BrokenIsViolation: true, ValidateEveryGrammar: validateEvery(c), Cfg: parserCfg(c),
 		}
 	}
